@@ -56,6 +56,19 @@ def judgeTag (src : Bytes) (t : Tag) : Verdict :=
             .lossy s!"utf16 [{t.u16.s},{t.u16.e}) expected [{us},{ue}) on ill-formed UTF-8"
           else .fail "utf16" s!"utf16 [{t.u16.s},{t.u16.e}) expected [{us},{ue})"
 
+/-- `judgeTag`, with a failing `line`/`utf16` clause attributed to the multi-row-name cache defect
+when some match's name spans rows and ends on the row of this tag. -/
+def judgeTagM (src : Bytes) (cfg : Cfg) (ms : List Mat) (t : Tag) : Verdict :=
+  match judgeTag src t with
+  | .fail c msg =>
+    if (c == "line" || c == "utf16") && ms.any (fun m =>
+        match (capLoop cfg (cfg.pats[m.pat]?.getD {}) m.caps).name with
+        | some n => decide (m.pat ≥ cfg.tagsFrom) && decide (n.sp.row < n.ep.row) && n.ep.row == t.spanS.row
+        | none => false)
+    then .fail "cache-after-multirow-name" (c ++ ": " ++ msg)
+    else .fail c msg
+  | v => v
+
 /-- Emitted tags are strictly increasing in `(name.end, name.start)` (hence one per name range). -/
 def judgeOrder : List Tag → Option String
   | a :: b :: rest =>
